@@ -273,7 +273,8 @@ def prox_log_sum(x, alpha, eps):
 @njit
 def _r2(x, alpha, eps):
     # compute r2 as in (eq. 7), ref [1] in `prox_log_sum`
-    return (x - eps) / 2. + np.sqrt(((x + eps) ** 2) / 4 - alpha)
+    # the discriminant is 0 at x = 2 sqrt(alpha) - eps, rounding must not make it negative
+    return (x - eps) / 2. + np.sqrt(max(((x + eps) ** 2) / 4 - alpha, 0.))
 
 
 @njit
